@@ -151,6 +151,8 @@ def history(sc, rng, hn, ch, n, weights=None):
             st["nchunks"] += 1
         if hl.startswith("chunknext") and not st.get("iter"):
             continue
+        if hl.startswith("seek") and (st["fmt"] >> 16) & 0xFFF == 0x02 and st["fmt"] & 0xFFFF == 0x12 and st["mode"] == "w":
+            continue        # KF-C16-aiff-ima-seek-write: aiff_ima_seek calls the NULL decode_block of a writer
         if hl.startswith("chunkiter"):
             st["iter"] = True
         if ml.startswith("dither w"):
@@ -598,12 +600,31 @@ def replay(ctx, path):
         print("replay: balance zero, no descriptor, no temporary file (no violation on this tree)")
 
 
+def known_findings(ctx):
+    """witnesses of `known` entries are replayed every run; while one still fails with its signature the KNOWN-FINDING line is printed"""
+    for kf in ctx.known:
+        if kf.get("status") != "known" or not kf.get("witness"):
+            continue
+        path = os.path.join(os.path.dirname(os.path.dirname(os.path.dirname(os.path.abspath(__file__)))), kf["witness"])
+        if not os.path.exists(path):
+            continue
+        text = open(path).read()
+        head, script = text.split("--- script", 1)
+        res = ctx.batch([("kf", script.lstrip("\n"))], env=LEAK_ENV)
+        out = "\n".join(res.get("kf", []))
+        want = [l[len("expect-contains "):].strip() for l in head.split("\n") if l.startswith("expect-contains ")]
+        ctx.count(1, "known-finding:" + kf["id"])
+        if want and all(w in out for w in want):
+            ctx.known_finding(kf, "%s: %s" % (kf["id"], kf["text"]))
+
+
 def run(ctx):
     if getattr(ctx, "replay", None):
         return replay(ctx, ctx.replay)
     quick = ctx.tier == "quick"
     failed = ctx.lean_stage(["SfProps.C16"])
     ctx.run_regressions()
+    known_findings(ctx)
     rng = ctx.rng
     fmts = formats.writable_formats(ctx)
     ctx.notes["writable_formats"] = len(fmts)
